@@ -1,8 +1,24 @@
 """C19 - VM memory is proportional to the live activations."""
+from common import Broken, apalache, log
 from vmfamily import run_family
 LEVEL = "model_checking"
 
+CFG = "CONSTANT MaxDepth = 8\nINIT %s\nNEXT Next\nINVARIANT FramesExact\n"
+
 
 def run(chk):
-    run_family(chk, invariants=["TypeOK", "FramesExact"], properties=[],
+    # unbounded in frame sizes and memory length: FramesExact is an inductive invariant of the frame discipline TheoFrames
+    # (Apalache: Init => Inv at length 0; Inv /\ Next => Inv' at length 1 from an arbitrary state satisfying Inv) ...
+    for name, module, init, length in (("base", "TheoFrames", "Init", 0), ("step", "TheoFramesInd", "IndInit", 1)):
+        verdict, out = apalache(module, CFG % init, chk.pid, "ind_" + name, "FramesExact", length, init=init)
+        if verdict == "error":
+            raise Broken("apalache (%s): %s" % (name, out[-1500:]))
+        if verdict == "violated":
+            chk.violation("c19:inductive:" + name, "FramesExact is not an inductive invariant of TheoFrames (%s case)\n%s" % (name, out[-2500:]), {})
+    if not chk.violations:
+        chk.cov["inductive_invariant"] = "FramesExact of TheoFrames: base case and inductive step discharged by Apalache (depth <= 8, sizes unbounded)"
+        log("C19: FramesExact is inductive for TheoFrames (Apalache)")
+    # ... and the specified VM refines TheoFrames on every transition of the complete debugger graph (FramesRefine), besides
+    # satisfying the invariant itself there and along every replayed / recorded execution of the real VM
+    run_family(chk, invariants=["TypeOK", "FramesExact"], properties=["FramesRefine"],
                s2i_fields=["ip", "data", "stack"], trace_fields="sg", trace_inv=["TypeOK", "FramesExact"])
